@@ -3,7 +3,8 @@
 From Coq Require Import String.
 From Coq Require Import List Ascii ZArith Bool Lia.
 From CGV Require Import Base.PyBase Base.PyVal Base.NxGraph Resolve.Bonding Resolve.GraphOps Resolve.Pipeline
-     Resolve.StepCheck Resolve.MapDefs Resolve.Witness Resolve.VirtualProofs Resolve.MapProofs Resolve.CopyProofs Resolve.C11Check.
+     Resolve.StepCheck Resolve.MapDefs Resolve.Witness Resolve.VirtualProofs Resolve.MapProofs Resolve.CopyProofs Resolve.PipelineFull Resolve.FragidProofs Resolve.C11Check.
+From CGV Require Hydro.Hydrogens.
 Import ListNotations.
 Open Scope Z_scope.
 
@@ -65,6 +66,38 @@ Theorem C11_map : forall meta meta' mol fgs fgs' k g g', annotate_fragments meta
   In (k, g) fgs -> In (k, g') fgs' -> forall n, In n (node_keys g) <-> In n (node_keys g').
 Proof. exact C11_map. Qed.
 
+(** ---- the same for the RETURNED graphs of a whole resolution step (end-to-end model PipelineFull.resolve_step_full:
+    instantiation, bonding, squash, hydrogen completion behind the aromaticity transcript, sort, E/Z annotation,
+    annotate_fragments, atom naming): every stage keeps "each fragid value is the key of a coarse node with a
+    fragment" (Resolve/FragidProofs.v) *)
+Theorem C11_step_records_real : forall legacy aa fd prev car fo n k, wf_dict fd -> wf_attrs fd ->
+  resolve_step_full legacy aa fd prev car = Ok fo -> records (fo_mol fo) n k -> In k (flat_map (real_of fd) (fo_meta fo)).
+Proof. exact step_records_real. Qed.
+(** a virtual node, wherever it stands in the coarse graph, comes back with an empty coarse graph *)
+Theorem C11_step_virtual_empty : forall legacy aa fd prev car fo mv g, wf_dict fd -> wf_attrs fd ->
+  resolve_step_full legacy aa fd prev car = Ok fo ->
+  NoDup (node_keys (fo_meta fo)) -> In mv (fo_meta fo) -> real_of fd mv = [] ->
+  In (nk mv, g) (fo_fgs fo) -> node_keys g = [].
+Proof. exact step_virtual_empty. Qed.
+(** the recorded result of pysmiles' correct_aromatic_rings, under the contract checked on every transcript,
+    cannot disturb the memberships *)
+Theorem C11_transcript_keeps_fragid : forall R before after, Hydrogens.transcript_contract before after = true ->
+  fid_inv R before -> fid_inv R after.
+Proof. exact inv_transcript. Qed.
+(** non-vacuity: the witness dictionary satisfies the hypotheses and the step returns for a virtual node first *)
+Example C11_step_nonvacuous :
+  wf_attrs fd_AB /\
+  match resolve_step_full true false fd_AB base_VAB None with
+  | Ok fo => nodupb (node_keys (fo_meta fo)) && match fg_get 0 (fo_fgs fo) with Some [] => true | _ => false end
+  | Err _ => false
+  end = true.
+Proof.
+  split; [|vm_compute; reflexivity].
+  intros name g H n Hn. cbn [fd_get fd_AB] in H.
+  destruct (str_eqb name (S "A")); [inversion H; subst; cbn in Hn; destruct Hn as [<-|[<-|[]]]; repeat constructor; cbn; intuition discriminate|].
+  destruct (str_eqb name (S "B")); [inversion H; subst; cbn in Hn; destruct Hn as [<-|[]]; repeat constructor; cbn; intuition discriminate|discriminate].
+Qed.
+
 (** ---- order-0 edges make no bond (corollaries of the proved bond fold of C03) *)
 Theorem C11_no_bond_for_order0 : forall legacy arom a b s acc, edge_loop legacy arom (Z.to_nat 0) a b s acc = Ok (s, acc).
 Proof. exact no_bond_for_order0. Qed.
@@ -82,3 +115,6 @@ Print Assumptions C11_zero_edge_inert.
 Print Assumptions C11_records_real.
 Print Assumptions C11_virtual_empty.
 Print Assumptions C11_map.
+Print Assumptions C11_step_records_real.
+Print Assumptions C11_step_virtual_empty.
+Print Assumptions C11_transcript_keeps_fragid.
